@@ -2,8 +2,8 @@
 from props import matcher_common as mc
 
 NAMESPACE = 'C12'
-LEAN_TARGETS = ['MxV.Props.C12', 'MxV.Props.Slotted']
-THEOREMS = ['C12_tame_perm', 'same_name_in_insertion_order', 'Slotted.C12_slotted']
+LEAN_TARGETS = ['MxV.Props.C12', 'MxV.Props.Slotted', 'MxV.Tables.D_witnesses_C12']
+THEOREMS = ['C12_tame_perm', 'same_name_in_insertion_order', 'Slotted.C12_slotted', 'fails_on_wild_models']
 TRUSTED_BASE = ['Lean 4.33.0 kernel', 'axioms: propext, Quot.sound, Classical.choice only (audited per theorem)',
                 'translator extract/*.py (templates regenerated every run)',
                 'correspondence harness (real library vs Mfull on all 94 types, vs Msimple on the 68 Tame types)']
